@@ -137,7 +137,12 @@ pub fn suite(out: &mut Out, seed: u64, thorough: bool) {
 			let mut r = rng.fork(id);
 			let src_idx = if rep % 3 == 0 { 0 } else { r.below(6) as usize };
 			let p0 = *r.pick(&[1.0, 100.0, 123.456, 1e-4, 5e6]);
-			let init = Candle { open: p0 as V, high: p0 as V, low: p0 as V, close: p0 as V, volume: 10.0 };
+			// every other case starts from a candle whose fields all differ, so that the configured source matters at construction
+			let init = if rep % 2 == 1 {
+				Candle { open: (p0 * 0.99) as V, high: (p0 * 1.03) as V, low: (p0 * 0.97) as V, close: p0 as V, volume: 10.0 }
+			} else {
+				Candle { open: p0 as V, high: p0 as V, low: p0 as V, close: p0 as V, volume: 10.0 }
+			};
 			let steps = if thorough { 1500 } else { 400 };
 			if id < 3 {
 				out.sample(format!("renko brick={} src={} p0={} steps={} (adaptive boundary prices)", b, src_idx, p0, steps));
@@ -153,6 +158,34 @@ pub fn suite(out: &mut Out, seed: u64, thorough: bool) {
 		id += 1;
 	}
 	out.add("cases", id);
+}
+
+/// C08 for Renko: the construction candle is an infinite constant prehistory — feeding it again (any number of times)
+/// emits no brick, for every source and brick size
+pub fn constant_flags(out: &mut Out, rng: &mut Rng) {
+	for (si, src) in SOURCES.iter().enumerate().take(6) {
+		for b in [0.001, 0.01, 0.05, 0.3] {
+			let p0 = *rng.pick(&[1.0, 100.0, 123.456, 5e6]);
+			let c0 = Candle { open: (p0 * 0.98) as V, high: (p0 * 1.06) as V, low: (p0 * 0.95) as V, close: p0 as V, volume: 10.0 };
+			let r = guard(|| {
+				let mut m = Renko::new((b as V, *src), &c0).ok()?;
+				for t in 0..(40 + rng.below(300)) {
+					let o = m.next(&c0);
+					if !o.is_empty() {
+						return Some(Some(format!("step {}: {} brick(s) emitted on the construction candle (source #{}, brick {})", t, o.len(), si, b)));
+					}
+				}
+				Some(None)
+			});
+			let (ok, d) = match r {
+				Some(Some(None)) | Some(None) => (true, String::new()),
+				Some(Some(Some(d))) => (false, d),
+				None => (false, "panicked".into()),
+			};
+			out.line(&format!("F renko constant_input ; ok=i{} {}", ok as u8, d.replace(';', ",")));
+			out.count("check:renko_constant");
+		}
+	}
 }
 
 pub fn replay_case(out: &mut Out, id: u64, lines: &[String]) {
